@@ -57,8 +57,11 @@ encrc = _rec('encrc', IntArr, I, I, I, I)
 z3.RecAddDefinition(encrc, [_a, _o, _k, _n], z3.If(_n <= 0, 0, 4 * encrc(_a, _o, _k, _n - 1) + (3 - dig(up(z3.Select(_a, _o + _k - _n))))))
 
 
+CANON_BOUND = False     # lemma files may ask for a fixed bound-variable name, so that equal formulas are the same term
+
+
 def allnuc(arr, off, n):
-	j = z3.Int(fresh_name('j'))
+	j = z3.Int('jnuc' if CANON_BOUND else fresh_name('j'))
 	return z3.ForAll([j], z3.Implies(z3.And(j >= 0, j < n), isnuc(z3.Select(arr, off + j))))
 
 
